@@ -48,6 +48,14 @@ namespace pgm {
 /** Computes the number of bits needed to store x, that is, 0 if x is 0, 1 + floor(log2(x)) otherwise. */
 #define BIT_WIDTH(x) ((x) == 0 ? 0 : 64 - __builtin_clzll(x))
 
+/** Computes max(0, int64_t(offset) + intercept), saturating offsets that do not fit an int64_t. */
+template<typename Floating>
+inline size_t internal_saturated_position(Floating offset, int64_t intercept) {
+    constexpr Floating max_offset = Floating(int64_t(1) << 62);
+    auto pos = (offset < max_offset ? int64_t(offset) : int64_t(max_offset)) + intercept;
+    return pos > 0 ? size_t(pos) : 0ull;
+}
+
 /**
  * A variant of @ref PGMIndex that does not build a recursive structure but uses a binary search on the segments.
  *
@@ -184,8 +192,7 @@ public:
             return {pos, lo, hi};
         }
 
-        auto p = int64_t(root_slope * (k - first_key)) + root_intercept;
-        auto pos = std::min<size_t>(p > 0 ? size_t(p) : 0ull, root_range);
+        auto pos = std::min<size_t>(internal_saturated_position(root_slope * (k - first_key), root_intercept), root_range);
 
         for (const auto &level : levels) {
             auto lo = level.keys.begin() + PGM_SUB_EPS(pos, EpsilonRecursive + 1);
@@ -330,8 +337,7 @@ struct CompressedPGMIndex<K, Epsilon, EpsilonRecursive, Floating>::CompressedLev
     }
 
     inline size_t operator()(const std::vector<Floating> &slopes, size_t i, K k) const {
-        auto pos = int64_t(get_slope(slopes, i) * (k - keys[i])) + get_intercept(i);
-        return pos > 0 ? size_t(pos) : 0ull;
+        return internal_saturated_position(get_slope(slopes, i) * (k - keys[i]), get_intercept(i));
     }
 
     inline Floating get_slope(const std::vector<Floating> &slopes, size_t i) const {
@@ -526,8 +532,7 @@ protected:
         SegmentData(Segment &s) : slope(s.slope), intercept(s.intercept) {}
 
         inline size_t operator()(const K &origin, const K &k) const {
-            auto pos = int64_t(slope * (k - origin)) + intercept;
-            return pos > 0 ? size_t(pos) : 0ull;
+            return internal_saturated_position(slope * (k - origin), intercept);
         }
     };
 
